@@ -145,6 +145,18 @@ def print_assumptions(theorems, requires):
     return res, out
 
 
+def coqchk(requires):
+    """Re-check the compiled property files and everything they depend on with Coq's independent checker;
+    returns (ok, summary text). Used by the thorough tier (about a minute per property)."""
+    mods = ["W2W.Properties." + r for r in requires]
+    rc, out = sh(["coqchk", "-silent", "-o", "-Q", COQ, "W2W"] + mods, timeout=3000)
+    tail = out[out.find("CONTEXT SUMMARY"):] if "CONTEXT SUMMARY" in out else out[-1500:]
+    summary = " ".join(tail.split())
+    want = ["Axioms: <none>", "type-in-type: <none>", "unsafe (co)fixpoints: <none>", "positivity is assumed: <none>"]
+    ok = rc == 0 and all(w in summary for w in want)
+    return ok, summary
+
+
 def check_pins(pins_file="Pins.v"):
     return os.path.exists(os.path.join(COQ, pins_file[:-2] + ".vo"))
 
